@@ -1201,6 +1201,269 @@ def sweep_metadata(repo: Repo, R: Report) -> None:
 
 
 # ---------------------------------------------------------------------------------------------------------
+# D2b  the roll-up is handed the spec the enrichment was written into, after it was written
+# ---------------------------------------------------------------------------------------------------------
+
+ROLLUP = "compute_pipeline_semantic_id"
+ENRICH_KEY = "preprocessor_metadata"
+# calls whose result holds (copies of) the elements of their first argument
+_CARRYING_CALLS = {"dict", "list", "tuple", "sorted", "deepcopy", "copy", "OrderedDict", "cast", "enumerate", "reversed", "zip", "iter"}
+
+
+def _base_name(e: ast.AST) -> Optional[str]:
+    """Root local of a subscript / attribute / `.get(..)` chain."""
+    while True:
+        if isinstance(e, (ast.Subscript, ast.Attribute)):
+            e = e.value
+        elif isinstance(e, ast.Call) and isinstance(e.func, ast.Attribute) and e.func.attr in ("get", "copy", "items", "values") :
+            e = e.func.value
+        elif isinstance(e, ast.Call) and call_attr(e) in _CARRYING_CALLS and e.args:
+            e = e.args[-1] if call_attr(e) == "cast" else e.args[0]
+        else:
+            break
+    return e.id if isinstance(e, ast.Name) else None
+
+
+def _carried_names(e: ast.AST) -> Dict[str, bool]:
+    """{local: placed as it is (alias) / only through a copy or traversal} for the locals whose object (or its
+    elements) ends up inside the value of *e*: operands of literals, spreads, conditional expressions, copies and
+    comprehensions - not what is merely passed to some other function."""
+    out: Dict[str, bool] = {}
+
+    def walk(x: ast.AST, direct: bool) -> None:
+        if isinstance(x, ast.Name):
+            out[x.id] = out.get(x.id, False) or direct
+        elif isinstance(x, ast.Dict):
+            for k, v in zip(x.keys, x.values):
+                walk(v, direct and k is not None)  # `**m` copies the top level of m
+        elif isinstance(x, (ast.List, ast.Tuple, ast.Set)):
+            for v in x.elts:
+                walk(v.value if isinstance(v, ast.Starred) else v, direct and not isinstance(v, ast.Starred))
+        elif isinstance(x, ast.IfExp):
+            walk(x.body, direct)
+            walk(x.orelse, direct)
+        elif isinstance(x, ast.BoolOp):
+            for v in x.values:
+                walk(v, direct)
+        elif isinstance(x, ast.NamedExpr):
+            walk(x.value, direct)
+        elif isinstance(x, (ast.Subscript, ast.Attribute)):
+            pass  # a part of the object: not the object
+        elif isinstance(x, ast.BinOp) and isinstance(x.op, (ast.Add, ast.BitOr)):
+            walk(x.left, False)
+            walk(x.right, False)
+        elif isinstance(x, ast.Call):
+            nm = call_attr(x)
+            if nm in _CARRYING_CALLS or (isinstance(x.func, ast.Attribute) and nm == "copy"):
+                for a in (x.args or [x.func.value]):  # type: ignore[union-attr]
+                    walk(a, False)
+                for kw in x.keywords:
+                    walk(kw.value, direct)
+        elif isinstance(x, (ast.ListComp, ast.SetComp, ast.GeneratorExp, ast.DictComp)):
+            for g in x.generators:
+                walk(g.iter, False)
+            for b in ([x.key, x.value] if isinstance(x, ast.DictComp) else [x.elt]):
+                walk(b, False)
+
+    walk(e, True)
+    return out
+
+
+def _enrichment_sites(fn: ast.AST, key: str) -> List[Tuple[ast.AST, Optional[str], bool]]:
+    """(statement, local whose object receives the entry, the statement binds that local) for every write of the
+    constant mapping key *key* in *fn*: `t[..][key] = v`, `t.update(key=v)` / `.setdefault(key, v)`, a mapping literal
+    or `dict(.., key=v)` assigned to a local / appended to a container / written inline into a call argument
+    (local None)."""
+    out: List[Tuple[ast.AST, Optional[str], bool]] = []
+    for n in _fn_stmts(fn):
+        if isinstance(n, ast.Assign):
+            for t in n.targets:
+                if isinstance(t, ast.Subscript) and isinstance(t.slice, ast.Constant) and t.slice.value == key:
+                    out.append((n, _base_name(t.value), False))
+        lit = False
+        recv: Optional[ast.AST] = None
+        if isinstance(n, ast.Dict):
+            lit = any(isinstance(k, ast.Constant) and k.value == key for k in n.keys)
+        elif isinstance(n, ast.Call):
+            nm = call_attr(n)
+            if nm in ("dict", "OrderedDict") and any(k.arg == key for k in n.keywords):
+                lit = True
+            elif nm == "update" and isinstance(n.func, ast.Attribute) and (any(k.arg == key for k in n.keywords) or any(isinstance(a, ast.Dict) and any(isinstance(k, ast.Constant) and k.value == key for k in a.keys) for a in n.args)):
+                recv = n.func.value
+            elif nm == "setdefault" and isinstance(n.func, ast.Attribute) and len(n.args) == 2 and isinstance(n.args[0], ast.Constant) and n.args[0].value == key:
+                recv = n.func.value
+        if recv is not None:
+            out.append((stmt_of(n), _base_name(recv), False))
+        if not lit:
+            continue
+        if isinstance(parent(n), ast.Call) and call_attr(parent(n)) == "update":
+            continue  # counted at the update call
+        st = stmt_of(n)
+        if isinstance(st, (ast.Assign, ast.AnnAssign)) and st.value is not None:
+            tg = st.targets[0] if isinstance(st, ast.Assign) else st.target
+            if isinstance(tg, ast.Name):
+                out.append((st, tg.id, True))
+            else:
+                out.append((st, _base_name(tg), False))
+        elif isinstance(st, ast.Expr) and isinstance(st.value, ast.Call) and isinstance(st.value.func, ast.Attribute) and st.value.func.attr in GROW_METHODS:
+            out.append((st, _base_name(st.value.func.value), False))
+        else:
+            out.append((st, None, False))
+    return out
+
+
+def _carried_to_call(fn: ast.AST, g: CFG, site: ast.AST, root: str, binds: bool, call: ast.Call) -> bool:
+    """The object the local *root* names at *site* is, when *call* runs, (part of) what the call receives as its first
+    argument: followed through `m = {.., 'nodes': root}`, `m.append(root)`, `m[k] = root`, copies made after the write,
+    and upwards from a part to its owner (`root = m['nodes'][i]`, `for root in m['nodes']`) - every step checked with
+    reaching definitions, so that a re-binding on the way (or a binding that only happens after the call) breaks it."""
+    call_st = stmt_of(call)
+    call_nodes = g.nodes_for(call_st)
+    if not call_nodes:
+        return False
+    cn = call_nodes[0]
+
+    def node_of(st: ast.AST) -> Optional[int]:
+        ns = g.nodes_for(st)
+        return ns[0] if ns else None
+
+    def defs_at(name: str, nid: int) -> Set[int]:
+        return {d.id for d in reaching_defs(g, name, nid)}
+
+    def before(a: int, b: int, not_through: Iterable[int] = ()) -> bool:
+        """*b* runs after *a* (without passing one of *not_through*: the re-binding of a loop-local in the next round)"""
+        blocked = set(not_through) - {a, b}
+        return a == b or b in g.reach([t for t, _l in g.succ[a] if t not in blocked], blocked=blocked)
+
+    site_n = node_of(site)
+    if site_n is None:
+        return False
+    start_defs = {site_n} if binds else defs_at(root, site_n)
+    targets = _carried_names(call.args[0]) if call.args else {}
+    todo: List[Tuple[str, int, frozenset, bool]] = [(root, site_n, frozenset(start_defs), True)]  # local, node, its defs there, enrichment already in
+    seen: Set[Tuple[str, int]] = set()
+    stmts = [n for n in _fn_stmts(fn) if isinstance(n, ast.stmt)]
+    steps = 0
+    while todo and steps < 200:
+        steps += 1
+        name, at, defs, _ = todo.pop()
+        if (name, at) in seen:
+            continue
+        seen.add((name, at))
+        # goal: the local is (in) the argument, and still names this object when the call runs
+        if name in targets and before(at, cn) and defs_at(name, cn) <= defs and (targets[name] or before(site_n, cn, defs)):
+            return True
+        for st in stmts:
+            sn = node_of(st)
+            if sn is None or sn == at:
+                continue
+            holder: Optional[str] = None
+            direct = False
+            binds_holder = False
+            if isinstance(st, (ast.Assign, ast.AnnAssign)) and st.value is not None:
+                carried = _carried_names(st.value)
+                if name in carried:
+                    tg = st.targets[0] if isinstance(st, ast.Assign) else st.target
+                    direct = carried[name]
+                    if isinstance(tg, ast.Name):
+                        holder, binds_holder = tg.id, True
+                    else:
+                        holder = _base_name(tg)
+            elif isinstance(st, ast.Expr) and isinstance(st.value, ast.Call) and isinstance(st.value.func, ast.Attribute) and st.value.func.attr in GROW_METHODS:
+                c = st.value
+                for a in list(c.args) + [k.value for k in c.keywords]:
+                    carried = _carried_names(a)
+                    if name in carried:
+                        holder = _base_name(c.func.value)
+                        direct = carried[name]
+            if holder is None:
+                continue
+            # the local still names the object there; a copy has to be made after the write
+            if not defs_at(name, sn) <= defs and not (binds_holder and holder == name and defs_at(name, sn) <= defs):
+                continue
+            if not direct and not before(site_n, sn, defs):
+                continue
+            if not before(sn, cn):
+                continue
+            todo.append((holder, sn, frozenset({sn}) if binds_holder else frozenset(defs_at(holder, sn)), True))
+        # upwards: the local is a part of a bigger object (`node = spec['nodes'][i]`, `for node in spec['nodes']`)
+        for d in defs:
+            dn = g.nodes[d]
+            src: Optional[ast.AST] = None
+            if isinstance(dn.ast, (ast.Assign, ast.AnnAssign)) and dn.kind == "stmt":
+                tg = dn.ast.targets[0] if isinstance(dn.ast, ast.Assign) else dn.ast.target
+                if isinstance(tg, ast.Name) and tg.id == name and isinstance(dn.ast.value, (ast.Subscript, ast.Call, ast.Attribute, ast.Name)):
+                    src = dn.ast.value
+            elif isinstance(dn.ast, ast.For) and dn.kind == "for":
+                src = dn.ast.iter
+            if src is None:
+                continue
+            if isinstance(src, ast.Call) and call_attr(src) in ("dict", "deepcopy", "copy", "OrderedDict"):
+                continue  # a copy of the part is not the part
+            owner = _base_name(src)
+            if owner is None or owner == name:
+                continue
+            todo.append((owner, d, frozenset(defs_at(owner, d)), True))
+    return False
+
+
+def rollup_sees_enrichment(repo: Repo, R: Report) -> None:
+    """Generated sweep classes share one processor_ref, so the only way the sweep definition reaches the pipeline
+    semantic id is the `preprocessor_metadata` entry that the caller of the roll-up writes into the canonical nodes.
+    That is an agreement between two sides of a module boundary: the roll-up reads node['preprocessor_metadata'] and
+    silently rolls up nothing when it is missing; every caller must hand over the very node mappings it enriched,
+    after it enriched them."""
+    r = R.rule("C05-D2b-rollup-receives-enriched-spec", "every function that computes the pipeline semantic id of a spec it enriches with `preprocessor_metadata` writes the entry before the roll-up call, into node mappings that are part of the spec the call receives (same object at the time of the call: no later re-binding, no copy taken before the write)", 2)
+    callers: List[Tuple[str, str]] = []
+    for mod, qn, node in repo.all_functions():
+        if mod.rel == SEM or any(isinstance(a, FuncNode) for a in ancestors(node)):
+            continue
+        if any(call_attr(c) == ROLLUP for c in calls_in(node)):
+            callers.append((mod.rel, qn))
+    for rel, qn in sorted(callers):
+        fn = nfunc(repo, rel, qn)
+        g = CFG(fn, may_raise=lambda p: set())
+        calls = [c for c in calls_in(fn) if call_attr(c) == ROLLUP and c.args]
+        sites = _enrichment_sites(fn, ENRICH_KEY)
+        if not calls or not sites:
+            continue  # no enrichment here: the spec arrives enriched or has none (judged by C05-D2)
+        for c in calls:
+            c_nodes = g.nodes_for(stmt_of(c))
+            if not c_nodes:
+                raise AnalysisError(f"{qn}: roll-up call not in the control-flow graph")
+            after_call = g.reach([t for t, _l in g.succ[c_nodes[0]]])
+            good: List[ast.AST] = []
+            late: List[ast.AST] = []
+            elsewhere: List[Tuple[ast.AST, Optional[str]]] = []
+            for st, root, binds in sites:
+                s_nodes = g.nodes_for(st)
+                if not s_nodes:
+                    continue
+                if st is stmt_of(c) and root is None:
+                    good.append(st)
+                    continue
+                if s_nodes[0] in after_call and s_nodes[0] != c_nodes[0]:
+                    late.append(st)
+                    continue
+                if root is not None and _carried_to_call(fn, g, st, root, binds, c):
+                    good.append(st)
+                else:
+                    elsewhere.append((st, root))
+            if good:
+                R.ok(r, rel, qn, f"`{norm(good[0])[:70]}` is in the spec when `{_u(c)[:60]}` runs", "", c.lineno)
+                continue
+            # name the write that was meant for the roll-up: the one into a container that (at some time) is put into the spec
+            arg_names = set(_carried_names(c.args[0]))
+            meant = [(st, root) for st, root in elsewhere if root is not None and any(isinstance(s2, (ast.Assign, ast.AnnAssign)) and s2.value is not None and root in _carried_names(s2.value) and any(isinstance(t, ast.Name) and t.id in arg_names for t in (s2.targets if isinstance(s2, ast.Assign) else [s2.target])) for s2 in _fn_stmts(fn))]
+            if late and not meant:
+                st = late[0]
+                R.violation(r, rel, qn, norm(st)[:110], f"the canonical nodes are enriched with `{ENRICH_KEY}` only after `{_u(c)[:60]}` has run: the roll-up sees no sweep metadata, so two pipelines that differ only in a sweep definition (expression, variable domain, mode, broadcast, collection, wrapped processor) get the same pipeline semantic id", getattr(st, "lineno", c.lineno))
+            else:
+                st, root = (meant or elsewhere or [(stmt_of(c), None)])[0]
+                R.violation(r, rel, qn, norm(st)[:110], f"`{ENRICH_KEY}` is written into `{root}`, which is not part of what `{_u(c)[:60]}` receives when it runs (it is put into the spec only afterwards, was copied before the write, or the spec is re-bound in between): the roll-up sees no sweep metadata, so two pipelines that differ only in a sweep definition (expression, variable domain, mode, broadcast, collection, wrapped processor) get the same pipeline semantic id", getattr(st, "lineno", c.lineno))
+
+
+# ---------------------------------------------------------------------------------------------------------
 # D3
 # ---------------------------------------------------------------------------------------------------------
 
@@ -1589,6 +1852,378 @@ def returned_sites(fr: _Frame) -> List[Tuple[_Frame, ast.AST, FItems]]:
     return out
 
 
+# ---------------------------------------------------------------------------------------------------------
+# D3b  the value a domain signature stores for a field keeps distinct field values apart
+# ---------------------------------------------------------------------------------------------------------
+
+_FALSY_OF = {"bool": False, "int": 0, "float": 0.0, "str": ""}
+# conversions that keep distinct values of a field of the given declared type distinct
+_INJECTIVE_CASTS = {
+    "bool": {"bool", "int", "float", "str", "repr"},
+    "int": {"int", "float", "str", "repr"},
+    "float": {"float", "str", "repr"},
+    "str": {"str", "repr"},
+    "any": {"int", "float", "str", "repr"},
+}
+_CAST_NAMES = {"bool", "int", "float", "str", "repr"}
+
+
+class _Unknown(Exception):
+    pass
+
+
+def _static_eval(e: ast.AST, env: Dict[str, object]) -> object:
+    """Value of a test made of constants, `self.<field>` reads of *env*, comparisons and and/or/not; _Unknown otherwise.
+    (A reader of syntax: nothing of the analysed package is executed.)"""
+    if isinstance(e, ast.Constant):
+        return e.value
+    if isinstance(e, ast.Attribute) and isinstance(e.value, ast.Name) and e.attr in env:
+        return env[e.attr]
+    if isinstance(e, (ast.Tuple, ast.List, ast.Set)):
+        return [_static_eval(x, env) for x in e.elts]
+    if isinstance(e, ast.UnaryOp) and isinstance(e.op, ast.Not):
+        return not _static_eval(e.operand, env)
+    if isinstance(e, ast.UnaryOp) and isinstance(e.op, ast.USub):
+        v = _static_eval(e.operand, env)
+        if isinstance(v, (int, float)):
+            return -v
+        raise _Unknown
+    if isinstance(e, ast.BoolOp):
+        vals: List[object] = []
+        unknown = False
+        for x in e.values:
+            try:
+                vals.append(_static_eval(x, env))
+            except _Unknown:
+                unknown = True
+        if isinstance(e.op, ast.Or):
+            if any(vals):
+                return True
+            if unknown:
+                raise _Unknown
+            return False
+        if any(not v for v in vals):
+            return False
+        if unknown:
+            raise _Unknown
+        return True
+    if isinstance(e, ast.Compare) and len(e.ops) == 1:
+        a, b, op = _static_eval(e.left, env), _static_eval(e.comparators[0], env), e.ops[0]
+        try:
+            if isinstance(op, ast.Eq):
+                return a == b
+            if isinstance(op, ast.NotEq):
+                return a != b
+            if isinstance(op, ast.Lt):
+                return a < b  # type: ignore[operator]
+            if isinstance(op, ast.LtE):
+                return a <= b  # type: ignore[operator]
+            if isinstance(op, ast.Gt):
+                return a > b  # type: ignore[operator]
+            if isinstance(op, ast.GtE):
+                return a >= b  # type: ignore[operator]
+            if isinstance(op, ast.In):
+                return a in b  # type: ignore[operator]
+            if isinstance(op, ast.NotIn):
+                return a not in b  # type: ignore[operator]
+            if isinstance(op, ast.Is):
+                return a is b
+            if isinstance(op, ast.IsNot):
+                return a is not b
+        except TypeError:
+            raise _Unknown from None
+    raise _Unknown
+
+
+def _field_domains(cdef: ast.ClassDef) -> Dict[str, Tuple[str, Optional[List[object]], bool]]:
+    """{field: (declared type, finite value list or None, can the falsy value of the type occur)} of a dataclass:
+    from the annotation (`Literal[..]` lists the values) and from the guards of `__post_init__` that raise."""
+    out: Dict[str, Tuple[str, Optional[List[object]], bool]] = {}
+    guards: List[ast.AST] = []
+    for st in cdef.body:
+        if isinstance(st, FuncNode) and st.name == "__post_init__":
+            for s in st.body:
+                if isinstance(s, ast.If) and s.body and not s.orelse and isinstance(s.body[-1], ast.Raise):
+                    guards.append(s.test)
+    for st in cdef.body:
+        if not (isinstance(st, ast.AnnAssign) and isinstance(st.target, ast.Name)):
+            continue
+        ann = st.annotation
+        typ, values = "any", None
+        if isinstance(ann, ast.Name) and ann.id in _FALSY_OF:
+            typ = ann.id
+        elif isinstance(ann, ast.Subscript) and (dotted_name(ann.value) or "").rpartition(".")[2] == "Literal":
+            elts = ann.slice.elts if isinstance(ann.slice, ast.Tuple) else [ann.slice]
+            if elts and all(isinstance(x, ast.Constant) for x in elts):
+                values = [x.value for x in elts]
+                tn = type(values[0]).__name__
+                if tn in _FALSY_OF and all(type(v).__name__ == tn for v in values):
+                    typ = tn
+        if typ == "bool":
+            values = [False, True]
+        falsy_occurs = True
+        if typ in _FALSY_OF:
+            fv = _FALSY_OF[typ]
+            if values is not None and fv not in values:
+                falsy_occurs = False
+            for t in guards:
+                try:
+                    if _static_eval(t, {st.target.id: fv}):
+                        falsy_occurs = False
+                except _Unknown:
+                    pass
+        out[st.target.id] = (typ, values, falsy_occurs)
+    return out
+
+
+class _Image:
+    def __init__(self) -> None:
+        self.lossy: List[Tuple[ast.AST, str]] = []
+        self.unknown: List[ast.AST] = []
+        self.kept = 0
+
+
+def _is_field_read(fr: _Frame, e: ast.AST, field: str) -> bool:
+    if isinstance(e, ast.Attribute) and e.attr == field and isinstance(e.value, ast.Name) and fr.is_obj(e.value.id):
+        return True
+    return isinstance(e, ast.Call) and call_attr(e) == "getattr" and isinstance(e.func, ast.Name) and 2 <= len(e.args) <= 3 and isinstance(e.args[1], ast.Constant) and e.args[1].value == field and isinstance(e.args[0], ast.Name) and fr.is_obj(e.args[0].id)
+
+
+def _absence_test(fr: _Frame, test: ast.AST, field: str) -> Optional[bool]:
+    """The truth value of *test* under which the field has no value at all (is None / is not an attribute): such a
+    branch may put a default without merging two values of the field.  None when *test* is no such test."""
+    if isinstance(test, ast.UnaryOp) and isinstance(test.op, ast.Not):
+        v = _absence_test(fr, test.operand, field)
+        return None if v is None else not v
+    if isinstance(test, ast.Compare) and len(test.ops) == 1 and isinstance(test.comparators[0], ast.Constant) and test.comparators[0].value is None and _reads_field_only(fr, test.left, field):
+        if isinstance(test.ops[0], (ast.Is, ast.Eq)):
+            return True
+        if isinstance(test.ops[0], (ast.IsNot, ast.NotEq)):
+            return False
+    if isinstance(test, ast.Call) and call_attr(test) == "hasattr" and len(test.args) == 2 and isinstance(test.args[1], ast.Constant) and test.args[1].value == field and isinstance(test.args[0], ast.Name) and fr.is_obj(test.args[0].id):
+        return False
+    return None
+
+
+def _reads_field_only(fr: _Frame, e: ast.AST, field: str) -> bool:
+    """*e* is the field itself: the read, or a local bound once to the read."""
+    if _is_field_read(fr, e, field):
+        return True
+    if isinstance(e, ast.Name):
+        h = fr.home(e.id)
+        if h is not None:
+            vals = name_values(h.fn, e.id)
+            return len(vals) == 1 and _reads_field_only(h, vals[0], field)
+    return False
+
+
+def _field_image(fr: _Frame, e: Optional[ast.AST], field: str, dom: Tuple[str, Optional[List[object]], bool], out: _Image, seen: Set[Tuple[int, str]], depth: int = 0) -> None:
+    """Judge how *e* (read in *fr*) is computed from the field `<obj>.field`: the value itself, possibly through a
+    conversion that keeps distinct values of the declared type distinct - or through an operation that maps two
+    values of the field to one (recorded in *out.lossy* with the offending syntax node)."""
+    typ, values, falsy_occurs = dom
+    if e is None or depth > 14:
+        out.unknown.append(e if e is not None else fr.fn)
+        return
+
+    def dep(x: ast.AST, f: _Frame = fr) -> bool:
+        return reads_obj_attr(fflow(f, x), field)
+
+    def rec(x: ast.AST, f: _Frame = fr) -> None:
+        _field_image(f, x, field, dom, out, seen, depth + 1)
+
+    def const(x: ast.AST) -> Tuple[bool, object]:
+        if isinstance(x, ast.Constant):
+            return True, x.value
+        return False, None
+
+    def or_default(d: ast.AST, at: ast.AST) -> None:
+        """a falsy value of the field is replaced by *d*"""
+        if typ not in _FALSY_OF:
+            is_c, dv = const(d)
+            if is_c and not dv:
+                return
+            out.lossy.append((at, f"`{_u(at)[:70]}` replaces every falsy value of `{field}` by one default"))
+            return
+        if not falsy_occurs:
+            return
+        fv = _FALSY_OF[typ]
+        is_c, dv = const(d)
+        if not is_c:
+            out.unknown.append(at)
+            return
+        if (type(dv) is type(fv) and dv == fv) or (values is not None and dv not in values):
+            return
+        out.lossy.append((at, f"`{_u(at)[:70]}` replaces the value {fv!r} of `{field}` by {dv!r}: the two values get one signature"))
+
+    def and_default(d: ast.AST, at: ast.AST) -> None:
+        """every truthy value of the field is replaced by *d* (a falsy one stays)"""
+        is_c, dv = const(d)
+        if values is None or sum(1 for v in values if v) > 1:
+            out.lossy.append((at, f"`{_u(at)[:70]}` replaces every truthy value of `{field}` by one value"))
+            return
+        if not is_c:
+            out.unknown.append(at)
+            return
+        if falsy_occurs and typ in _FALSY_OF and dv == _FALSY_OF[typ]:
+            out.lossy.append((at, f"`{_u(at)[:70]}` gives {dv!r} for every value of `{field}`"))
+
+    if isinstance(e, ast.Name):
+        h = fr.home(e.id)
+        if h is None:
+            out.unknown.append(e)
+            return
+        key = (id(h), e.id)
+        if key in seen:
+            return
+        seen.add(key)
+        bound = name_values(h.fn, e.id)
+        if not bound and e.id in h.params and e.id in h.bind:
+            bf, bv = h.bind[e.id]
+            rec(bv, bf)
+            return
+        if not bound or not all(dep(v, h) for v in bound):
+            out.unknown.append(e)  # also bound to something that is no function of the field: decided by control flow
+            return
+        for v in bound:  # element-wise through tuple unpacking
+            rec(v, h)
+        return
+    if _is_field_read(fr, e, field):
+        out.kept += 1
+        return
+    if isinstance(e, ast.NamedExpr):
+        rec(e.value)
+        return
+    if isinstance(e, (ast.Tuple, ast.List)):
+        parts = [x for x in e.elts if dep(x)]
+        for x in parts:
+            rec(x)
+        if not parts:
+            out.unknown.append(e)
+        return
+    if isinstance(e, ast.IfExp):
+        bd, od = dep(e.body), dep(e.orelse)
+        if bd:
+            rec(e.body)
+        if od:
+            rec(e.orelse)
+        if bd and od:
+            return
+        if not bd and not od:
+            # only the test reads the field: `A if <field> else B`
+            cb, vb = const(e.body)
+            co, vo = const(e.orelse)
+            core = e.test.operand if isinstance(e.test, ast.UnaryOp) and isinstance(e.test.op, ast.Not) else e.test
+            if _reads_field_only(fr, core, field) and cb and co and vb != vo and values is not None and len(values) <= 2:
+                out.kept += 1
+            elif _reads_field_only(fr, core, field):
+                out.lossy.append((e, f"`{_u(e)[:70]}` keeps only the truth value of `{field}`"))
+            else:
+                out.unknown.append(e)
+            return
+        default, taken_when = (e.orelse, False) if bd else (e.body, True)
+        absent = _absence_test(fr, e.test, field)
+        if absent is not None:
+            if absent != taken_when:
+                out.lossy.append((e, f"`{_u(e)[:70]}` puts a default for every present value of `{field}`"))
+            return
+        core, truthy_when = e.test, True
+        if isinstance(core, ast.UnaryOp) and isinstance(core.op, ast.Not):
+            core, truthy_when = core.operand, False
+        if _reads_field_only(fr, core, field):
+            # `x if x else D` is `x or D`; `D if x else x` is `x and D`
+            if taken_when != truthy_when:
+                or_default(default, e)
+            else:
+                and_default(default, e)
+            return
+        out.unknown.append(e)
+        return
+    if isinstance(e, ast.BoolOp) and len(e.values) == 2:
+        a, b = e.values
+        ad, bd = dep(a), dep(b)
+        if ad and not bd:
+            rec(a)
+            (or_default if isinstance(e.op, ast.Or) else and_default)(b, e)
+            return
+        if bd and not ad:
+            is_c, av = const(a)
+            if not is_c:
+                out.unknown.append(e)
+            elif bool(av) == isinstance(e.op, ast.Or):
+                out.lossy.append((e, f"`{_u(e)[:70]}` never evaluates to `{field}`"))
+            else:
+                rec(b)
+            return
+        out.unknown.append(e)
+        return
+    if isinstance(e, ast.UnaryOp):
+        if isinstance(e.op, ast.Not) and not (values is not None and len(values) <= 2):
+            out.lossy.append((e, f"`{_u(e)[:70]}` keeps only the truth value of `{field}`"))
+            return
+        rec(e.operand)
+        return
+    if isinstance(e, ast.JoinedStr):
+        for v in e.values:
+            if isinstance(v, ast.FormattedValue) and dep(v.value):
+                if v.format_spec is not None:
+                    out.lossy.append((e, f"`{_u(e)[:70]}` formats `{field}` to a fixed precision / width"))
+                else:
+                    rec(v.value)
+        return
+    if isinstance(e, ast.BinOp):
+        ld, rd = dep(e.left), dep(e.right)
+        if ld and rd:
+            out.unknown.append(e)
+            return
+        side, other = (e.left, e.right) if ld else (e.right, e.left)
+        is_c, ov = const(other)
+        if isinstance(e.op, (ast.Add, ast.Sub)) or (isinstance(e.op, ast.Mult) and is_c and isinstance(ov, (int, float)) and ov != 0) or (isinstance(e.op, ast.Div) and ld and is_c and isinstance(ov, (int, float)) and ov != 0):
+            rec(side)
+            return
+        if isinstance(e.op, (ast.FloorDiv, ast.Mod, ast.LShift, ast.RShift, ast.BitAnd, ast.BitOr, ast.Mult, ast.Pow)):
+            out.lossy.append((e, f"`{_u(e)[:70]}` maps distinct values of `{field}` to one"))
+            return
+        out.unknown.append(e)
+        return
+    if isinstance(e, ast.Compare):
+        sides = [e.left] + list(e.comparators)
+        if len(sides) == 2 and any(_reads_field_only(fr, s, field) for s in sides) and any(isinstance(s, ast.Constant) for s in sides) and isinstance(e.ops[0], (ast.Eq, ast.NotEq, ast.Is, ast.IsNot)) and values is not None and len(values) <= 2:
+            out.kept += 1
+            return
+        out.lossy.append((e, f"`{_u(e)[:70]}` keeps only the outcome of a comparison of `{field}`"))
+        return
+    if isinstance(e, ast.Subscript):
+        out.lossy.append((e, f"`{_u(e)[:70]}` keeps only a part of the value of `{field}`"))
+        return
+    if isinstance(e, ast.Call):
+        nm = call_attr(e)
+        if isinstance(e.func, ast.Name) and nm in _CAST_NAMES and len(e.args) == 1 and not e.keywords and fr.home(nm) is None and _defined_in(fr, nm) is None:
+            if nm in _INJECTIVE_CASTS[typ]:
+                rec(e.args[0])
+            else:
+                out.lossy.append((e, f"`{_u(e)[:70]}` narrows the {typ} field `{field}`"))
+            return
+        entered = _entered(fr, e)
+        if entered:
+            for nf in entered:
+                rets = nf.returns()
+                if not rets:
+                    out.unknown.append(e)
+                for rv in rets:
+                    if reads_obj_attr(fflow(nf, rv), field):
+                        _field_image(nf, rv, field, dom, out, seen, depth + 1)
+                    else:
+                        out.unknown.append(rv)
+            return
+        if nm in NARROWING_FUNCS:
+            out.lossy.append((e, f"`{_u(e)[:70]}` maps distinct values of `{field}` to one"))
+            return
+        out.unknown.append(e)
+        return
+    out.unknown.append(e)
+
+
 def positional_and_domains(repo: Repo, R: Report) -> None:
     r = R.rule("C05-D3-position-and-domain", "declaration_index is the enumerate() index of the node in the spec; the range signature covers every RangeSpec field; the sequence signature covers count and a digest of all values", 9)
     bcs = NF(repo, GRAPH, "build_canonical_spec")
@@ -1635,6 +2270,23 @@ def positional_and_domains(repo: Repo, R: Report) -> None:
     for f in fields:
         ok = all(sig.get(f) is not None and reads_obj_attr(fflow(*sig[f]), f) for sig in range_sigs)
         R.check(ok, r, SEM, "variable_domain_signature", f"range signature covers RangeSpec.{f}", f"RangeSpec.{f} is not part of the domain signature: changing it changes no id", vds.lineno)
+    # ... and what is stored for a field tells its values apart: reaching the signature is not enough when the value
+    # passes an operation that maps two values of the field to one on the way (`x or <default>` on a flag, a narrowing
+    # cast, rounding, a comparison, a slice)
+    rb = R.rule("C05-D3b-domain-field-values-kept-apart", "the value the range signature stores for a RangeSpec field is the field itself, possibly through a conversion that keeps distinct values of its declared type distinct (float() of a float, bool() of a flag, str() of a Literal); no default is substituted for a value the field can take, no narrowing cast, rounding, comparison or slicing on the way", len(fields))
+    doms = _field_domains(rs)
+    for f in fields:
+        for sig in range_sigs:
+            if sig.get(f) is None or not reads_obj_attr(fflow(*sig[f]), f):
+                continue  # reported by the coverage rule above
+            img = _Image()
+            _field_image(sig[f][0], sig[f][1], f, doms.get(f, ("any", None, True)), img, set())
+            for node, why in img.lossy:
+                R.violation(rb, SEM, "variable_domain_signature", f"range signature[{f!r}] = {_u(sig[f][1])[:60]}", f"two values of RangeSpec.{f} give the same domain signature ({why}): sweeps that differ only there - and produce different items - share node semantic id, semantic id and config id", getattr(node, "lineno", vds.lineno))
+            if img.unknown and not img.lossy:
+                raise AnalysisError(f"variable_domain_signature: value of {f!r} is computed from RangeSpec.{f} in a way that is not understood: `{_u(img.unknown[0])[:80]}`")
+            if not img.lossy:
+                R.ok(rb, SEM, "variable_domain_signature", f"range signature[{f!r}] is an injective image of RangeSpec.{f}", "", vds.lineno)
 
     def all_values(fr: _Frame, e: Optional[ast.AST]) -> bool:
         """*e* is computed from the complete `spec.values` (no slice / index / filter on the way)."""
@@ -1672,6 +2324,7 @@ def run(repo: Repo, R: Report) -> None:
     field_coverage(repo, R)
     params_lossless(repo, R)
     sweep_metadata(repo, R)
+    rollup_sees_enrichment(repo, R)
     positional_and_domains(repo, R)
     # an expression signature that merges expressions of different value makes two different sweeps share an id:
     # the discrimination half of C12 (only +/* chains of one operator are flattened; every other position is
